@@ -413,7 +413,11 @@ func (g *Gen) store(t types.Type, obj, off string, v *Val) {
 	for i, c := range cs {
 		bySort[c.Sort] = append(bySort[c.Sort], i)
 	}
-	for s, idxs := range bySort {
+	for _, s := range g.sorts {
+		idxs, has := bySort[s]
+		if !has {
+			continue
+		}
 		row := fmt.Sprintf("(select %s %s)", g.heap[s], obj)
 		for _, i := range idxs {
 			row = fmt.Sprintf("(store %s %s %s)", row, addOff(off, i), vals[i])
@@ -569,7 +573,8 @@ func (g *Gen) globalObj(x *ssa.Global) string {
 	g.globals[x] = o
 	// type safety: a pointer parameter of the global's own type that points into the global is the global
 	gelem := x.Type().Underlying().(*types.Pointer).Elem()
-	for _, pv := range g.params {
+	for _, pname := range sortedValKeys(g.params) {
+		pv := g.params[pname]
 		if pv.Tuple != nil || pv.T == nil {
 			continue
 		}
@@ -720,7 +725,13 @@ func (g *Gen) run() {
 	if env.pkg != nil && !g.isRing() {
 		// invariants of package-level state: own package always; other repo packages when this unit works in the
 		// field view and its package (transitively) imports them
-		for pp, invs := range g.eng.cs.PkgInv {
+		var pkgPaths []string
+		for pp := range g.eng.cs.PkgInv {
+			pkgPaths = append(pkgPaths, pp)
+		}
+		sort.Strings(pkgPaths)
+		for _, pp := range pkgPaths {
+			invs := g.eng.cs.PkgInv[pp]
 			own := pp == env.pkg.Pkg.Path()
 			if !own && !(g.view.Field && g.eng.imports(env.pkg, pp)) {
 				continue
@@ -1044,7 +1055,7 @@ func (g *Gen) enterBlock(b *ssa.BasicBlock, ins []inEdge) bool {
 	}
 	g.nextobj = g.joinStates(sts, conds, func(st *blockState) string { return st.nextobj }, "nextobj", "Int")
 	ng := map[string]string{}
-	for k := range sts[0].ghost {
+	for _, k := range sortedKeys(sts[0].ghost) {
 		k := k
 		ng[k] = g.joinStates(sts, conds, func(st *blockState) string { return st.ghost[k] }, "gh_"+k, g.ghostSortOf(k))
 	}
@@ -1387,4 +1398,22 @@ func (g *Gen) joinPhi(phi *ssa.Phi, preds []*ssa.BasicBlock, conds []string) *Va
 
 func (g *Gen) saveState(conds []string) {
 	g.states[g.cur] = &blockState{reach: g.reach, heap: copyMap(g.heap), nextobj: g.nextobj, conds: conds, ghost: copyMap(g.ghost)}
+}
+
+func sortedKeys(m map[string]string) []string {
+	out := make([]string, 0, len(m))
+	for k := range m {
+		out = append(out, k)
+	}
+	sort.Strings(out)
+	return out
+}
+
+func sortedValKeys(m map[string]*Val) []string {
+	out := make([]string, 0, len(m))
+	for k := range m {
+		out = append(out, k)
+	}
+	sort.Strings(out)
+	return out
 }
